@@ -141,6 +141,8 @@ func TestCheck(t *testing.T) {
 		},
 	}
 	pbt.Add(s, &pbt.Spec[Case]{Name: "live", Gen: gen, Run: run, Quick: 400, Thorough: 6000, Shards: 8, Nondet: true, Timeout: 20 * time.Minute})
+	// calls and Close after a write that the file system failed (iofault_test.go)
+	pbt.Add(s, &pbt.Spec[ioCase]{Name: "iofault", Gen: genIOFault, Run: runIOFault, Quick: 60, Thorough: 1500, Shards: 4, Timeout: 20 * time.Minute})
 	if pbt.Tier() == "thorough" {
 		pbt.Add(s, &pbt.Spec[RaceCase]{Name: "race", Gen: genRace, Run: runRace, Static: raceCases, Nondet: true})
 	}
